@@ -132,6 +132,20 @@ def as_rows(rows, op):
     return [bytearray(r) if i % 2 else list(r) for i, r in enumerate(rows)]
 
 
+def as_iter_rows(rows, op):
+    """set_rect_tiles only iterates: besides the sequence types, the rows may be iterators — each row its own generator, or every row
+    the next `width` values of ONE shared stream (a flat tile list cut into rows lazily); a row is consumed whole, on or off the map"""
+    import itertools
+    kind = (sum(len(r) for r in rows) + 3 * len(rows) + op[1] + 2 * op[2]) % 4
+    if kind == 0 and rows:
+        stream = iter([v for r in rows for v in r])
+        widths = [len(r) for r in rows]
+        return (itertools.islice(stream, w) for w in widths)
+    if kind == 1:
+        return (iter(list(r)) for r in rows)
+    return as_rows(rows, op)
+
+
 def apply_impl(g, op):
     k = op[0]
     if k == 'getsprite':
@@ -167,7 +181,7 @@ def apply_impl(g, op):
                 pass
         return out
     if k == 'setrect':
-        g.map.set_rect_tiles(as_rows(op[3], op), op[1], op[2]); return None
+        g.map.set_rect_tiles(as_iter_rows(op[3], op), op[1], op[2]); return None
     if k == 'getflags':
         return 'ok %d' % g.gff.get_flags(op[1], op[2])
     if k in ('setflags', 'clearflags', 'resetflags'):
